@@ -19,7 +19,7 @@ def do_replay(pid, path):
             loader.exec_module(mod)
             scratch = tempfile.mkdtemp(prefix='verif_replay_')
             try:
-                r = mod.run_native_unit(rec['unit'], scratch, 0, replay={'fn': rec['fn'], 'input': rec['input']})
+                r = (mod.run_crate_unit(rec['unit'][6:], scratch, 0, replay={'fn': rec['fn'], 'input': rec['input']}) if rec['unit'].startswith('crate:') else mod.run_native_unit(rec['unit'], scratch, 0, replay={'fn': rec['fn'], 'input': rec['input']}))
             finally:
                 shutil.rmtree(scratch, ignore_errors=True)
             if r['error']:
